@@ -201,6 +201,12 @@ Theorem C02_transfers_use_the_path_resolved_at_the_command :
 Proof. vm_compute. reflexivity. Qed.
 Print Assumptions C02_transfers_use_the_path_resolved_at_the_command.
 
+(* a rename acts on the location the RNFR named when it was handled (and checked), not on whatever the RNFR argument
+   means under the working directory of the RNTO: closed check on the regenerated Gen/Dispatch.v *)
+Theorem C02_rename_source_resolved_at_rnfr : rename_source_resolved_at_rnfr Gen.Dispatch.handlers = true.
+Proof. vm_compute. reflexivity. Qed.
+Print Assumptions C02_rename_source_resolved_at_rnfr.
+
 (* Server.user() drops a pending rename source (repair of F18, /repo 8b539d4): a closed check on the
    regenerated handler facts -- it computes false on the former shape of user(), whose `del` statements were
    only `user` and `logged` *)
